@@ -128,7 +128,7 @@ class Session:
                 if ev is not None:
                     ev.set()
         self.hist_no = 0
-        self.clock_n = 0       # model clock
+        self.clock_n = 1000    # model clock; start tables and proposals use ticks below 1000
         self.provider.take_wire()
 
     def close(self):
@@ -418,7 +418,7 @@ class History:
                 del s.provider.capture_errors[:]
             self.stats.append((op[0], res, v1 - v0))
             if wf:
-                self.oracle(idx, op, res, before, after, v0, v1, wire)
+                self.oracle(idx, op, res, before, after, v0, v1, wire, float(BASE + s.clock.tick))
             elif res != 'ok':
                 self.noop_clause(idx, 'set_location' if op[0] == 'loc' else 'SetContextState', res, before, after, v0, v1)
             elif op[0] == 'loc' and res == 'ok' and v1 != v0:
@@ -502,7 +502,7 @@ class History:
                                   f'{res}, no commit, but MdibVersion {v0} -> {v1} and the table changed: ' + '; '.join(diff[:4]), idx))
 
     # ---- the property, evaluated on the implementation
-    def oracle(self, idx, op, res, before, after, v0, v1, wire):
+    def oracle(self, idx, op, res, before, after, v0, v1, wire, now):
         kind = 'set_location' if op[0] == 'loc' else 'SetContextState'
         fail = lambda sig, detail: self.failures.append((f'{kind}:{sig}', detail, idx))  # noqa: E731
         descr_handles = {d.Handle for d in self.s.mdib.descriptions.objects}
@@ -539,6 +539,10 @@ class History:
                     fail('unbind-not-marked',
                          f'state {h} stopped being associated at MdibVersion {v1} (was {v0}): ContextAssociation='
                          f'{n.ContextAssociation.value} UnbindingMdibVersion={n.UnbindingMdibVersion} BindingEndTime={n.BindingEndTime}')
+                elif n.BindingEndTime != now:
+                    fail('unbind-stale-end-time',
+                         f'state {h} stopped being associated in the commit of MdibVersion {v1} at (virtual) time {now}, '
+                         f'but BindingEndTime={n.BindingEndTime} is not the time of that commit')
         # a state that became associated
         for h, n in flat.items():
             if is_assoc(n) and (h not in old or not is_assoc(old[h])):
@@ -546,6 +550,10 @@ class History:
                     fail('bind-not-marked',
                          f'state {h} became associated at MdibVersion {v1} (was {v0}): BindingMdibVersion={n.BindingMdibVersion} '
                          f'BindingStartTime={n.BindingStartTime}')
+                elif n.BindingStartTime != now:
+                    fail('bind-stale-start-time',
+                         f'state {h} became associated in the commit of MdibVersion {v1} at (virtual) time {now}, '
+                         f'but BindingStartTime={n.BindingStartTime} is not the time of that commit')
         # the reports: every association change is published in an EpisodicContextReport of exactly that version
         changed = {h for h, n in flat.items() if (h not in old) or old[h].ContextAssociation != n.ContextAssociation}
         reported = {}
@@ -632,19 +640,20 @@ def gen_start(rng, wf, lc2):
                 a = 'dis'
             has_assoc |= a == 'assoc'
             bv = rng.choice([None, rng.randint(0, 9)])
-            bt = None if bv is None else rng.randint(1, 50)
+            bt = rng.choice([None, rng.randint(1, 50)])
             if a == 'assoc':
-                bv, bt = rng.randint(0, 9), rng.randint(1, 50)
-                uv = ut = None
+                bv, bt = rng.choice([None] + [rng.randint(0, 9)] * 3), rng.choice([None] + [rng.randint(1, 50)] * 3)
+                uv = None
+                ut = rng.choice([None, None, rng.randint(51, 99)])      # an end time without unbinding version is well-formed
                 if not wf and rng.random() < 0.3:
                     uv = rng.randint(0, 9)
                     ut = rng.choice([None, 60])
             elif a == 'dis':
                 uv = rng.choice([rng.randint(0, 9)] * 4 + [None])
-                ut = None if uv is None else rng.randint(51, 99)
+                ut = rng.choice([None, rng.randint(51, 99)]) if uv is None else rng.choice([None] + [rng.randint(51, 99)] * 4)
             else:
                 uv = rng.choice([None] * 4 + [rng.randint(0, 9)])
-                ut = None if uv is None else rng.randint(51, 99)
+                ut = rng.choice([None, None, rng.randint(51, 99)]) if uv is None else rng.choice([None, rng.randint(51, 99)])
             states.append([hid, d, rng.choice([0, 2, 2, 5]), rng.randint(0, 4), rng.randint(1, 9), a, bv, uv, bt, ut])
             hid += 1
     return states
@@ -663,9 +672,10 @@ class Gen:
 
     def junk(self):
         r = self.rng
-        if r.random() < 0.8:
+        if r.random() < 0.6:
             return [None, None, None, None]
-        return [r.choice([None, 77]), r.choice([None, 55]), r.choice([None, 61]), r.choice([None, 62])]
+        return [r.choice([None, r.randint(0, 99)]), r.choice([None, r.randint(0, 99)]),
+                r.choice([None, r.randint(100, 199)]), r.choice([None, r.randint(200, 299)])]
 
     def proposal(self, kind, rows, d=None):
         r = self.rng
